@@ -10,7 +10,9 @@
                    (delete <-> rrcount_dec is decided under C11.a)
   C09.e pointer-free  insert_rr, set_raw_name and delete resize the buffer / overwrite name bytes only on paths where maybe_compressed is
                    known to be false (after the normalisation), so no other record's compression pointer can be invalidated
-  C09.a geometry   (E4, rules/C09 geometry clause) splice ranges of resize_rr / set_raw_name / insert_rr
+  C09.a geometry   (E4, rules/geometry.py) the byte moves of resize_rr (both directions) and insert_rr satisfy the preconditions of
+                   copy_within / copy_from_slice for every valid cursor (offset <= len, shift inside the packet) and every object whose
+                   section offsets lie inside the packet
 
 Not decided: that all *other* records are byte-identical after an operation (a run-time equality).
 """
@@ -210,6 +212,10 @@ def run(ctx):
         facts = ctx.facts(cfg)
         names = section_names(facts)
         pointer_free_rule(ctx, facts, cfg)
+        if cfg != 'hooks':
+            from rules import geometry
+            geometry.resize_rule(ctx, facts, cfg, 'C09.a')
+            geometry.insert_rule(ctx, facts, cfg, 'C09.a', 'C09.a-arith', facts.const_val('constants::DNS_MAX_UNCOMPRESSED_SIZE') or 8192)
         # ---------------- C09.b --------------------------------------------------
         layout.check_writers(ctx, facts, cfg, 'C09.b')
         for key in facts.inst_keys('rr_iterator::RdataIterable::rr_ip'):
